@@ -618,4 +618,110 @@ Proof.
   destruct Hc as [_ HT _]. rewrite Forall_forall in HT. destruct (ti_mine _ _ (HT t Ht) e He) as [M1 [_ M3]]. auto.
 Qed.
 
+(* ------------------------------------------------------------------ *)
+(* programs are executed in order, operation by operation *)
+
+Lemma tstep_done a q t a' q' t' ev : TI a t -> tstep I a q t = (a', q', t', ev) ->
+  done t' ++ prog t' = done t ++ prog t.
+Proof.
+  intros Ht H.
+  assert (forall r, prog t = CCreate :: r -> (done t ++ [CCreate]) ++ tl (prog t) = done t ++ prog t) as Hc.
+  { intros r ->. rewrite <- app_assoc. reflexivity. }
+  tstep_cases H; unf; try rewrite Epr; try reflexivity; try (cbn [tl]; rewrite <- app_assoc; reflexivity).
+  - destruct (ti_c _ _ Ht) as [r Hr]; [rewrite Epc; reflexivity|]. eauto.
+  - destruct (ti_c _ _ Ht) as [r Hr]; [rewrite Epc; reflexivity|]. eauto.
+  - destruct (ti_k _ _ Ht _ _ Epc) as [[r Hr] _]. rewrite Hr, <- app_assoc. reflexivity.
+Qed.
+
+Lemma progs_step c n progs : GI c -> map (fun t => done t ++ prog t) (threads c) = progs ->
+  map (fun t => done t ++ prog t) (threads (step_thread c n)) = progs.
+Proof.
+  intros [Hg Ht Hi] Hp.
+  destruct (step_thread_cases c n) as [[-> _]|[l1 [t [l2 [a' [q' [t' [ev [Hl [Hn [Hs ->]]]]]]]]]]]; [assumption|].
+  norm. rewrite Hl in *. rewrite Hi in Hs. clear Hi.
+  apply Forall_app in Ht. destruct Ht as [F1 F2]. inversion F2 as [|? ? Tt F3]; subst.
+  rewrite !map_app. cbn [map]. rewrite (tstep_done _ _ _ _ _ _ _ Tt Hs). reflexivity.
+Qed.
+
+Lemma progs_run s : forall c progs, GI c -> map (fun t => done t ++ prog t) (threads c) = progs ->
+  map (fun t => done t ++ prog t) (threads (run c s)) = progs.
+Proof.
+  induction s as [|n s IH]; intros c progs Hc Hp; cbn [run]; [assumption|].
+  apply IH; [apply GI_step | apply progs_step]; assumption.
+Qed.
+
 End Phase.
+
+(* ------------------------------------------------------------------ *)
+(* (e) the lazy queue *)
+
+Definition pushes (l : list cop) : list N :=
+  flat_map (fun o => match o with CPush q => [q] | _ => [] end) l.
+
+(* [interleaving ls q]: q is a merge of the lists ls -- every element of
+   every list exactly once, each list in its own order *)
+Inductive interleaving {A} : list (list A) -> list A -> Prop :=
+| il_nil ls : Forall (fun l => l = []) ls -> interleaving ls []
+| il_snoc ls1 l x ls2 q :
+    interleaving (ls1 ++ l :: ls2) q -> interleaving (ls1 ++ (l ++ [x]) :: ls2) (q ++ [x]).
+
+Lemma interleaving_perm {A} (ls : list (list A)) q : interleaving ls q -> Permutation (concat ls) q.
+Proof.
+  induction 1 as [ls Hall|ls1 l x ls2 q _ IH].
+  - induction Hall as [|l ls -> _ IHl]; cbn [concat app]; [constructor | assumption].
+  - rewrite concat_app in *. cbn [concat] in *.
+    rewrite <- app_assoc. cbn [app]. rewrite app_assoc.
+    eapply Permutation_trans; [apply Permutation_sym, Permutation_middle|].
+    eapply Permutation_trans; [|apply Permutation_cons_append].
+    constructor. rewrite <- app_assoc. assumption.
+Qed.
+
+Lemma pushes_snoc l o : pushes (l ++ [o]) = pushes l ++ match o with CPush q => [q] | _ => [] end.
+Proof. unfold pushes. rewrite flat_map_app. cbn [flat_map]. rewrite app_nil_r. reflexivity. Qed.
+
+Lemma tstep_queue J a q t a' q' t' ev : tstep J a q t = (a', q', t', ev) ->
+  (q' = q /\ pushes (done t') = pushes (done t)) \/
+  (exists x, q' = q ++ [x] /\ pushes (done t') = pushes (done t) ++ [x]).
+Proof.
+  intros H. tstep_cases H; unf; try (left; split; [reflexivity|]; rewrite ?pushes_snoc, ?app_nil_r; reflexivity).
+  right. exists x. rewrite pushes_snoc. auto.
+Qed.
+
+Definition QI (c : config) : Prop := interleaving (map (fun t => pushes (done t)) (threads c)) (queue c).
+
+Lemma QI_step c n : QI c -> QI (step_thread c n).
+Proof.
+  unfold QI. intros H.
+  destruct (step_thread_cases c n) as [[-> _]|[l1 [t [l2 [a' [q' [t' [ev [Hl [Hn [Hs ->]]]]]]]]]]]; [assumption|].
+  norm. rewrite Hl in H. rewrite map_app in *. cbn [map] in *.
+  destruct (tstep_queue _ _ _ _ _ _ _ _ Hs) as [[-> ->]|[x [-> ->]]]; [assumption|].
+  apply il_snoc. assumption.
+Qed.
+
+Lemma QI_new a J progs : QI (c_new a J progs).
+Proof.
+  unfold QI, c_new. norm. apply il_nil. apply Forall_forall. intros l Hl.
+  apply in_map_iff in Hl. destruct Hl as [t [<- Ht]]. apply in_map_iff in Ht. destruct Ht as [p [<- _]]. reflexivity.
+Qed.
+
+Lemma finished_prog t : finished t = true -> prog t = [] /\ tpc t = PIdle.
+Proof. unfold finished. destruct (tpc t); try discriminate. destruct (prog t); [auto|discriminate]. Qed.
+
+(* (e) when every thread has finished, the queue is an interleaving of the
+   threads' pushes: nothing lost, nothing duplicated, each thread's order kept *)
+Theorem queue_is_interleaving a0 J progs s : Init0 a0 -> Forall (hinit_ok a0) J ->
+  let c := run (c_new a0 J progs) s in
+  all_finished c = true ->
+  interleaving (map pushes progs) (queue c) /\ Permutation (concat (map pushes progs)) (queue c).
+Proof.
+  intros H0 HJ c Hfin.
+  assert (QI c) as Hq by (apply run_inv; [apply QI_step | apply QI_new]).
+  assert (map (fun t => done t ++ prog t) (threads c) = progs) as Hp.
+  { apply (progs_run a0 J H0 HJ); [apply GI_new; assumption|].
+    unfold c_new. norm. rewrite map_map. cbn. apply map_id. }
+  assert (map (fun t => pushes (done t)) (threads c) = map pushes progs) as E.
+  { rewrite <- Hp, map_map. apply map_ext_in. intros t Ht.
+    unfold all_finished in Hfin. rewrite forallb_forall in Hfin.
+    destruct (finished_prog t (Hfin t Ht)) as [-> _]. rewrite app_nil_r. reflexivity. }
+  unfold QI in Hq. rewrite E in Hq. split; [assumption | apply interleaving_perm; assumption].
+Qed.
